@@ -23,6 +23,7 @@ pub struct FdtReceiver {
     sender_current_time_late: bool,
     pub ext_time: Option<std::time::SystemTime>,
     pub reception_start_time: SystemTime,
+    last_activity: SystemTime,
     enable_expired_check: bool,
     meta: Option<ObjectMetadata>,
 }
@@ -94,6 +95,7 @@ impl FdtReceiver {
             sender_current_time_offset: None,
             sender_current_time_late: true,
             reception_start_time: now,
+            last_activity: now,
             enable_expired_check,
             meta: None,
             ext_time: None,
@@ -101,6 +103,7 @@ impl FdtReceiver {
     }
 
     pub fn push(&mut self, pkt: &alc::AlcPkt, now: std::time::SystemTime) {
+        self.last_activity = now;
         if let Ok(Some(res)) = alc::get_sender_current_time(pkt) {
             self.ext_time = Some(res);
             if res < now {
@@ -142,6 +145,18 @@ impl FdtReceiver {
 
     pub fn state(&self) -> FDTState {
         self.inner.borrow().state
+    }
+
+    /// `true` if the FDT is still being received and no packet has been pushed since `timeout`
+    pub fn is_stalled(&self, now: SystemTime, timeout: &std::time::Duration) -> bool {
+        if self.state() != FDTState::Receiving {
+            return false;
+        }
+
+        match now.duration_since(self.last_activity) {
+            Ok(duration) => duration.gt(timeout),
+            Err(_) => false,
+        }
     }
 
     pub fn fdt_instance(&mut self) -> Option<&FdtInstance> {
